@@ -8,7 +8,7 @@ META = {
     "level": "proof",
     "design_ref": "DESIGN.md §6 C03",
     "text": "Kernel-checked theorems: for every list of code units the escaper model emits no raw < > \" ', emits & only as the start of one of the five entities, decoding commutes, escaping is idempotent; with the flag off it is the identity. The model is tied to StringUtils::EscapeHTMLSpecialChars by exhaustive enumeration of short strings over entity-fragment alphabets in four character widths and both flag settings, and the entity tables are re-extracted from the headers and proved equal to the standard entities on every run.",
-    "note": "Trusted: Lean kernel; axioms ⊆ {propext, Quot.sound, Classical.choice}; g++ as table translator; the correspondence harness (ASan/UBSan, exact-size buffers). The template-level print paths ({var:}, loop keys, unresolved tags) are checked by the same Lean predicates evaluated on rendered output (validation, not proof).",
+    "note": "Trusted: Lean kernel; axioms ⊆ {propext, Quot.sound, Classical.choice}; g++ as table translator; the correspondence harness (ASan/UBSan, exact-size buffers). The template-level print paths are proved on the Render model (C03Tmpl: every Variable tag appends escapeCfg of the resolved string / loop key / own source slice or a numeral text that contains no special; Raw tags append verbatim) and tied to the real renderer by the template print-path stream.",
 }
 
 THEOREMS = [
@@ -19,6 +19,12 @@ THEOREMS = [
     "Qentem.Props.C03.escape_off",
     "Qentem.Props.C03.tables_are_the_five_entities",
     "Qentem.Props.C03.escape_single_special",
+    "Qentem.Props.C03Tmpl.var_emits_escaped",
+    "Qentem.Props.C03Tmpl.raw_emits_verbatim",
+    "Qentem.Props.C03Tmpl.raw_string_verbatim",
+    "Qentem.Props.C03Tmpl.svar_emits",
+    "Qentem.Props.C03Tmpl.numeral_safe",
+    "Qentem.Props.C03Tmpl.var_text_safe",
 ]
 
 ALPHA1 = [38, 59, 97, 109, 112, 108, 116, 60]          # & ; a m p l t <
@@ -78,8 +84,8 @@ def gen_inputs(ctx):
 
 
 def run(ctx):
-    ctx.gen_constants(["Escape"])
-    ctx.prove(["Qentem.Props.C03"], THEOREMS)
+    ctx.gen_constants(["Escape", "Expr", "Tmpl"])
+    ctx.prove(["Qentem.Props.C03", "Qentem.Props.C03Tmpl"], THEOREMS)
     drv = ctx.build_driver()
     h_on = ctx.build_harness("escape_harness.cpp", tag="san_on")
     h_off = ctx.build_harness("escape_harness.cpp", flags=core.SAN_FLAGS + ["-DQENTEM_AUTO_ESCAPE_HTML=0"], tag="san_off")
